@@ -171,9 +171,40 @@ def empty_array(e):
     return e[0] == 'agg' and e[1] == 'array' and len(e[3]) == 0
 
 
+def _flag_token(e):
+    """The record-end flag as a token: a bool constant, or a variant of a private two-variant enum that replaced the bool."""
+    v = cv(e)
+    if v is not None:
+        return ('b', v)
+    vn = variant_of(e)
+    if vn is not None and not ir.peel(e)[3]:
+        return ('v', vn, ir.peel(e)[2].rsplit("::", 1)[0])
+    return None
+
+
+def _rec_end_truth(facts, e, lab, complete_tok):
+    """Is the record-end flag set on this edge?  `rec_end` itself (bool), or the discriminant of the enum that stands for it."""
+    pe = ir.peel(e)
+    if is_param(pe, 'rec_end'):
+        return lab[0] == 'otherwise'
+    if pe[0] == 'discr' and is_param(pe[1], 'rec_end') and complete_tok is not None and complete_tok[0] == 'v':
+        adt = complete_tok[2]
+        try:
+            d = facts.enum_discr(adt)
+        except Exception:
+            return None
+        if case_value(lab) is not None:
+            return facts.variant_name(adt, case_value(lab)) == complete_tok[1]
+        left = [k for k, v in d.items() if v not in lab[1]]
+        if len(left) == 1:
+            return left[0] == complete_tok[1]
+    return None
+
+
 def run_record_end(rep, facts):
     PS = "parser::request::ParamsState"
     PI = "parser::request::ParamsStateInner"
+    toks = {}
     # ---- R6.4 ------------------------------------------------------------------------------------------
     b, g, rows = rows_of(facts, PS + "::drive")
     bad = []
@@ -189,7 +220,7 @@ def run_record_end(rep, facts):
         ncalls += 1
         c = cs[0]
         pos = r.nodes.index(c[2])
-        flag = cv(c[1][2])
+        flag = _flag_token(c[1][2])
         # the governing comparison: the last `len(data) < payload_rem` test before the call
         test = None
         for (e, lab, n) in r.conds:
@@ -210,18 +241,23 @@ def run_record_end(rep, facts):
         arg = ir.peel(c[1][1])
         if taken:
             kinds.add('partial')
-            if flag != 0:
+            toks.setdefault('partial', set()).add(flag)
+            if flag is None or flag == ('b', 1):
                 bad.append("incomplete payload parsed with rec_end = true")
             if not is_param(arg, 'data'):
                 bad.append("incomplete payload: parse_stream does not receive all available bytes (%s)" % ir.show(arg)[:60])
         else:
             kinds.add('complete')
-            if flag != 1:
+            toks.setdefault('complete', set()).add(flag)
+            if flag is None or flag == ('b', 0):
                 bad.append("complete payload parsed with rec_end = false")
             okarg = arg[0] == 'field' and str(arg[2]) == '0' and ir.peel(arg[1])[0] == 'call' and ir.peel(arg[1])[1].endswith("split_at_mut") \
                 and is_param(ir.peel(arg[1])[2][0], 'data') and self_field(ir.peel(arg[1])[2][1], 'payload_rem')
             if not okarg:
                 bad.append("complete payload: parse_stream does not receive exactly the first payload_rem bytes (%s)" % ir.show(arg)[:60])
+    complete_tok = next(iter(toks.get('complete', {None}))) if len(toks.get('complete', set())) == 1 else None
+    if not bad and (len(toks.get('partial', set())) != 1 or complete_tok is None or toks['partial'] == toks['complete']):
+        bad.append("complete and incomplete payloads are not told apart by the record-end flag (%s / %s)" % (sorted(map(str, toks.get('complete', []))), sorted(map(str, toks.get('partial', [])))))
     if bad:
         rep.violation("R6.4", "params-drive/record-end-flag", "; ".join(sorted(set(bad))), b.loc())
     elif kinds == {'partial', 'complete'}:
@@ -242,8 +278,8 @@ def run_record_end(rep, facts):
         rem_empty = None
         for (e, lab) in nonconst_conds(r):
             pe = ir.peel(e)
-            if is_param(pe, 'rec_end'):
-                rec = (lab[0] == 'otherwise')
+            if _rec_end_truth(facts, pe, lab, complete_tok) is not None:
+                rec = _rec_end_truth(facts, pe, lab, complete_tok)
             elif pe[0] == 'call' and pe[1].endswith("is_empty") and any(x[0] == 'call' and x[1].endswith("into_inner") for x in ir.walk(pe)):
                 rem_empty = (lab[0] == 'otherwise')
             elif pe[0] == 'call' and pe[1].endswith("is_empty") and self_field(pe[2][0], 'buffer'):
@@ -291,8 +327,8 @@ def run_record_end(rep, facts):
         ins = [c for c in r.calls if c[0].endswith("HashMap::insert")]
         rec = None
         for (e, lab) in nonconst_conds(r):
-            if is_param(e, 'rec_end'):
-                rec = (lab[0] == 'otherwise')
+            if _rec_end_truth(facts, e, lab, complete_tok) is not None:
+                rec = _rec_end_truth(facts, e, lab, complete_tok)
         ret = ir.peel(r.ret)
         ext = [c for c in r.calls if c[0].endswith("Extend>::extend") and self_field(c[1][0], 'buffer')]
         if cleared:
